@@ -95,7 +95,10 @@ def gen_case(rng, name, rel, directed=None):
     # a LARGE pair set (more than a thousand distinct points; ITML's default bounds are percentiles over all of them)
     d = 3
     Xm, ym = gen.dataset(rng, d=d, n_classes=2, per_class=650, bits=9, sep=2.5)
-    idxm, labm = gen.pairs_from(rng, Xm, ym, 680)
+    pm = rng.permutation(len(Xm))
+    idxm = pm[:len(pm) // 2 * 2].reshape(-1, 2)                                   # every point in exactly one pair: 1300 distinct points
+    idxm = idxm[[not np.array_equal(Xm[a], Xm[b]) for a, b in idxm]]
+    labm = np.where(ym[idxm[:, 0]] == ym[idxm[:, 1]], 1, -1)
     tr = dict(X=Xm, y=ym, kind='pairs', idx=idxm, labels=labm, fit_args=(Xm[idxm], labm), fit_kwargs={})
   if name == 'LFDA' and (directed == 'singleton' or rng.random() < 0.4):
     # a class with a SINGLE member (any class layout is in the quantifier)
